@@ -48,6 +48,8 @@ type c11Cfg struct {
 	ElapsedS  float64 `json:"elapsed_between_save_and_load_s"`
 	ElapsedCl string  `json:"elapsed_class"`
 	Shrink    bool    `json:"population_shrunk_survivors_hot,omitempty"`
+	// the receiving cache was built before the saving one (and then left idle)
+	TargetFirst bool `json:"receiving_cache_built_first,omitempty"`
 }
 
 type c11Ent struct {
@@ -102,6 +104,30 @@ func c11Desc(e c11Ent) string {
 // c11RoundTrip runs one round trip for one key/value instantiation.
 func c11RoundTrip[K comparable, V any](r *Run, idx int, cfg c11Cfg, mkKey func(i int) K, mkVal func(i int, rng *rand.Rand) V, costOf func(v V) int64) {
 	rng := r.Rng(int64(11000 + idx))
+	// every other round trip the receiving cache is the older of the two: it is built before the saving cache and
+	// has then been idle for a while (0 s / 3 s / 2 h of its own clock). Saved deadlines are relative to the saving
+	// cache's clock origin, so the load has to adopt that origin whichever of the two caches was built first.
+	buildTarget := func() (*theine.Cache[K, V], error) {
+		nb := theine.NewBuilder[K, V](int64(cfg.NewSize))
+		if costOf != nil {
+			nb = nb.Cost(costOf)
+		}
+		return nb.Build()
+	}
+	var nc *theine.Cache[K, V]
+	if cfg.TargetFirst {
+		var err error
+		if nc, err = buildTarget(); err != nil {
+			r.Broken("build: %v", err)
+			return
+		}
+		defer nc.Close()
+		if d := []time.Duration{0, 3 * time.Second, 2 * time.Hour}[idx/2%3]; d > 0 {
+			nc.VerifStore().VerifShiftClock(d, true)
+			nc.VerifStore().VerifTick()
+		}
+		r.Count("round_trips_into_a_cache_built_before_the_saving_cache", 1)
+	}
 	b := theine.NewBuilder[K, V](int64(cfg.MaxSize))
 	if costOf != nil {
 		b = b.Cost(costOf)
@@ -211,16 +237,13 @@ func c11RoundTrip[K comparable, V any](r *Run, idx int, cfg c11Cfg, mkKey func(i
 		return
 	}
 	// ---- load
-	nb := theine.NewBuilder[K, V](int64(cfg.NewSize))
-	if costOf != nil {
-		nb = nb.Cost(costOf)
+	if nc == nil {
+		if nc, err = buildTarget(); err != nil {
+			r.Broken("build: %v", err)
+			return
+		}
+		defer nc.Close()
 	}
-	nc, err := nb.Build()
-	if err != nil {
-		r.Broken("build: %v", err)
-		return
-	}
-	defer nc.Close()
 	nst := nc.VerifStore()
 	wit := map[string]any{"config": cfg, "round": idx, "stream_bytes": buf.Len(),
 		"saved": map[string]any{"window": len(ref.Window), "protected": len(ref.Protected), "probation": len(ref.Probation), "window_capacity": ref.WinCap, "protected_capacity": ref.ProtCap}}
@@ -561,6 +584,17 @@ func c11ReclaimAfterLoad(r *Run, idx int) {
 		return
 	}
 	defer dst.Close()
+	// the receiving cache may itself have been up for a while - less long or longer than the saving one: its timer
+	// wheel then stands at its own uptime when the saved clock origin is adopted
+	dstAge := []time.Duration{0, 0, 10 * time.Minute, 100 * 24 * time.Hour}[rng.Intn(4)]
+	if dstAge > 0 {
+		dst.VerifStore().VerifShiftClock(dstAge, true)
+		dst.VerifStore().VerifTick()
+		r.Count("reclaim_rounds_into_a_cache_that_had_been_up_for_a_while", 1)
+		if dstAge > uptime {
+			r.Count("reclaim_rounds_into_a_cache_older_than_the_saving_one", 1)
+		}
+	}
 	if err := dst.LoadCache(2, &buf); err != nil {
 		r.Broken("load: %v", err)
 		return
@@ -574,7 +608,7 @@ func c11ReclaimAfterLoad(r *Run, idx int) {
 	}
 	restored := len(deadline)
 	fail := func(key, what string) {
-		r.Violate(key+"/after-loadcache", fmt.Sprintf("reclaim round %d (saving cache up for %v, %d TTL entries restored): %s", idx, uptime, restored, what), map[string]any{"round": idx, "uptime_of_the_saving_cache": uptime.String()})
+		r.Violate(key+"/after-loadcache", fmt.Sprintf("reclaim round %d (saving cache up for %v, receiving cache up for %v, %d TTL entries restored): %s", idx, uptime, dstAge, restored, what), map[string]any{"round": idx, "uptime_of_the_saving_cache": uptime.String(), "uptime_of_the_receiving_cache": dstAge.String()})
 	}
 	consumed := 0
 	late := map[int]bool{}
@@ -611,7 +645,7 @@ func c11ReclaimAfterLoad(r *Run, idx int) {
 	}
 	r.Eval(1)
 	r.Count("reclaim_after_load_rounds", 1)
-	r.Distinct(fmt.Sprintf("reclaim-after-load/%v", uptime))
+	r.Distinct(fmt.Sprintf("reclaim-after-load/%v/%v", uptime, dstAge))
 }
 
 // c11DeadlineRightAfterLoad: a cache that has been up for a while (its clock origin lies d back) saves entries whose
@@ -647,6 +681,17 @@ func c11DeadlineRightAfterLoad(r *Run, idx int) {
 		return
 	}
 	defer dst.Close()
+	// the receiving cache may itself have been up for a while - less long or longer than the saving one: its timer
+	// wheel then stands at its own uptime when the saved clock origin is adopted
+	dstAge := []time.Duration{0, 0, 10 * time.Minute, 100 * 24 * time.Hour}[rng.Intn(4)]
+	if dstAge > 0 {
+		dst.VerifStore().VerifShiftClock(dstAge, true)
+		dst.VerifStore().VerifTick()
+		r.Count("reclaim_rounds_into_a_cache_that_had_been_up_for_a_while", 1)
+		if dstAge > uptime {
+			r.Count("reclaim_rounds_into_a_cache_older_than_the_saving_one", 1)
+		}
+	}
 	if err := dst.LoadCache(2, &buf); err != nil {
 		r.Broken("load: %v", err)
 		return
